@@ -30,6 +30,11 @@ def gen_definition(rng, rich=True, styles=None, nested_criteria=False):
             if kind == 'cal':
                 if rng.random() < 0.6:
                     t['default'] = ['poly', [[rng.choice([1.5, -2.0, 10.0]), 0], [rng.choice([0.5, 2.0]), 1]]]
+                    if rng.random() < 0.35:
+                        # a spline (points over the whole raw range, so that every raw value calibrates)
+                        top = float(2 ** t['w'])
+                        t['default'] = ['spline', [[0.0, rng.choice([0.0, 1.5])], [top / 2, rng.choice([10.0, -3.25])],
+                                                   [top, rng.choice([20.0, 7.5])]], rng.choice([0, 1]), True]
                 if rng.random() < 0.6:
                     # context calibrators whose criteria overlap (the FIRST matching one applies)
                     t['ctx'] = [[[['MODE', rng.choice(['>=', '==', '<=']), str(rng.randint(0, 2)), rng.choice([True, False])]],
@@ -48,6 +53,8 @@ def gen_definition(rng, rich=True, styles=None, nested_criteria=False):
             t.update(bits=rng.choice([8, 16, 24]), encoding='US-ASCII')
         elif kind == 'bin':
             t.update(bits=rng.choice([8, 12, 16]))
+        if rich and rng.random() < 0.25 and kind != 'str':
+            t['unit'] = rng.choice(['V', 'degC', 'counts'])
         ptypes.append(t)
         params.append({'name': name, 'type': t['name']})
         return name
@@ -140,24 +147,26 @@ def build_definition(r):
         if k == 'int':
             e = enc.IntegerDataEncoding(t['w'], t['enc'], byte_order=t['order'], default_calibrator=mk_cal(t.get('default')),
                                         context_calibrators=mk_ctx(t.get('ctx')))
-            types[t['name']] = pt.IntegerParameterType(t['name'], e)
+            types[t['name']] = pt.IntegerParameterType(t['name'], e, unit=t.get('unit'))
         elif k == 'float':
-            types[t['name']] = pt.FloatParameterType(t['name'], enc.FloatDataEncoding(t['w'], encoding=t['enc'], byte_order=t['order']))
+            types[t['name']] = pt.FloatParameterType(t['name'], enc.FloatDataEncoding(t['w'], encoding=t['enc'], byte_order=t['order']),
+                                                     unit=t.get('unit'))
         elif k == 'enum':
             e = enc.IntegerDataEncoding(t['w'], 'unsigned')
-            types[t['name']] = pt.EnumeratedParameterType(t['name'], e, enumeration={int(a): b for a, b in t['enum'].items()})
+            types[t['name']] = pt.EnumeratedParameterType(t['name'], e, enumeration={int(a): b for a, b in t['enum'].items()},
+                                                          unit=t.get('unit'))
         elif k == 'bool':
             types[t['name']] = pt.BooleanParameterType(t['name'], enc.IntegerDataEncoding(
-                t['w'], 'unsigned', default_calibrator=mk_cal(t.get('default'))))
+                t['w'], 'unsigned', default_calibrator=mk_cal(t.get('default'))), unit=t.get('unit'))
         elif k == 'str':
             if t.get('ref'):
                 adj = t.get('adj')
                 e = enc.StringDataEncoding(dynamic_length_reference=t['ref'], use_calibrated_value=t.get('use_cal', True),
                                            encoding=t['encoding'],
-                                           length_linear_adjuster=(lambda x, a=adj: int(a[0] * x + a[1])) if adj else None)
+                                           length_linear_adjuster=(lambda x, a=adj: int((a[0] or 0) * x + (a[1] or 0))) if adj else None)
             else:
                 e = enc.StringDataEncoding(fixed_raw_length=t['bits'], encoding=t['encoding'])
-            types[t['name']] = pt.StringParameterType(t['name'], e)
+            types[t['name']] = pt.StringParameterType(t['name'], e, unit=t.get('unit'))
         elif k == 'time':
             e = enc.IntegerDataEncoding(t['w'], 'unsigned', default_calibrator=mk_cal(t.get('default')))
             cls_ = pt.AbsoluteTimeParameterType if t.get('absolute', True) else pt.RelativeTimeParameterType
@@ -179,10 +188,10 @@ def build_definition(r):
             if t.get('ref'):
                 adj = t.get('adj')
                 e = enc.BinaryDataEncoding(size_reference_parameter=t['ref'], use_calibrated_value=t.get('use_cal', True),
-                                           linear_adjuster=(lambda x, a=adj: int(a[0] * x + a[1])) if adj else None)
+                                           linear_adjuster=(lambda x, a=adj: int((a[0] or 0) * x + (a[1] or 0))) if adj else None)
             else:
                 e = enc.BinaryDataEncoding(fixed_size_in_bits=t['bits'])
-            types[t['name']] = pt.BinaryParameterType(t['name'], e)
+            types[t['name']] = pt.BinaryParameterType(t['name'], e, unit=t.get('unit'))
     params = {p['name']: prm.Parameter(p['name'], types[p['type']]) for p in r['params']}
 
     def mk_tree(t):
